@@ -39,7 +39,7 @@ statements and the `return` at the end, which are counted — to a `NullIR` valu
             W0.flat[Lij[Oind]] = s * Wv
         else:
             wsize = np.size(Wv)
-            wei_period = np.round(1 / wei_freq).astype(int)
+            wei_period = int(min(np.round(1 / wei_freq), max(wsize, 1)))
             lq = np.arange(wsize, 0, -wei_period, dtype=int)
             for m in lq:
                 Oind = np.argsort(P.flat[Lij])
@@ -70,8 +70,9 @@ the names refer to each other as they must (`coherent`) and then runs the routin
 * every `np.argsort` returns the next entry of the *oracle* `orc` (it must be a permutation of the current index range: `badDraw`
   otherwise); the float bookkeeping that only feeds the sort keys — the strengths `S` / `Si` / `So`, the matrix `P`, the factor `f`
   and their updates (`strs`, `p`, `book`) — is data of the IR that `coherent` checks for shape and names, without a value;
-* `wei_period = np.round(1 / wei_freq).astype(int)` is a float computation: its result `period` and the truth of
-  `wei_freq == 0` (`freq0`) are inputs;
+* `np.round(1 / wei_freq)` is a float computation: its result `period` and the truth of `wei_freq == 0` (`freq0`) are inputs; the
+  statement `wei_period = int(min(np.round(1 / wei_freq), max(wsize, 1)))` caps it by the number of weights of the sign
+  (`signI`: `min period (max wv.length 1)`; `Props/CoresNull.lean` `loopI_min`: the capped loop is the uncapped one);
 * `rng.permutation(m)` takes the next `m` recorded draws;
 * `i`, `j` and `Lij` hold the row, the column and the flat index of the same cells and are deleted together (checked by
   `coherent`): the interpreter keeps them as one list of cells;
@@ -202,14 +203,18 @@ structure NullIR where
   w0aO : String
   w0aS : String
   w0aW : String
-  /-- `else:` `<wsize> = np.size(<wsOf>)`, `<period> = np.round(<perOne> / <perOf>).astype(<perTy>)`,
+  /-- `else:` `<wsize> = np.size(<wsOf>)`, `<period> = <perTy>(<perMin>(np.round(<perOne> / <perOf>), <perMax>(<perMaxA>, <perMaxB>)))`,
   `<lq> = np.arange(<lqA>, <lqB>, -<lqC>, dtype=<lqTy>)`, `for <m> in <mIn>:` -/
   wsize : String
   wsOf : String
   period : String
+  perTy : String
+  perMin : String
   perOne : Nat
   perOf : String
-  perTy : String
+  perMax : String
+  perMaxA : String
+  perMaxB : Nat
   lq : String
   lqA : String
   lqB : Nat
@@ -283,7 +288,8 @@ def NullIR.coherent (ir : NullIR) : Bool :=
     svs.contains ir.po1 && svs.contains ir.po2 &&
     ir.fq == pFreq && ir.fqLit == 0 &&
     ir.as0P == ir.p && ir.as0L == ir.lij && ir.w0a == ir.w0 && ir.w0aL == ir.lij && ir.w0aO == ir.oind0 && ir.w0aS == ir.sVar && ir.w0aW == ir.wv &&
-    ir.wsOf == ir.wv && ir.perOne == 1 && ir.perOf == pFreq && ir.perTy == "int" && ir.lqA == ir.wsize && ir.lqB == 0 && ir.lqC == ir.period &&
+    ir.wsOf == ir.wv && ir.perTy == "int" && ir.perMin == "min" && ir.perOne == 1 && ir.perOf == pFreq && ir.perMax == "max" && ir.perMaxA == ir.wsize &&
+    ir.perMaxB == 1 && ir.lqA == ir.wsize && ir.lqB == 0 && ir.lqC == ir.period &&
     ir.lqTy == "int" && ir.mIn == ir.lq &&
     ir.asP == ir.p && ir.asL == ir.lij && ir.rRng == ir.rng && ir.rN == ir.m && ir.rM == ir.m && ir.rP == ir.period &&
     ir.enumOf == ir.rr && ir.oOf == ir.oind && ir.oIdx == ir.r1 &&
@@ -352,7 +358,7 @@ def signI (s : Int) (cells : List (Cell n)) (wv : List Int) (freq0 : Bool) (peri
       | .error e => .error e
       | .ok (_, _, W0') => .ok (W0', orc', ds)
   else if period = 0 then .error .param
-  else loopI s period wv.length wv.length cells wv W0 orc ds
+  else loopI s (min period (max wv.length 1)) wv.length wv.length cells wv W0 orc ds
 
 /-- the routine; `rw` is the callee (`randmio_und_signed` / `randmio_dir_signed` on the recorded draws) -/
 def runNull (ir : NullIR) (rw : AMat Int n → Nat → List Nat → Except Err (AMat Int n × Nat × List Nat))
@@ -388,13 +394,13 @@ def runNull (ir : NullIR) (rw : AMat Int n → Nat → List Nat → Except Err (
 def refOriginsUnd : List (String × String) :=
   [("BCTParamError", "class bct/utils/miscellaneous_utilities.py:BCTParamError"), ("BibTeX", "from bct/due.py:BibTeX"),
    ("RUBINOV2011", "from bct/citations.py:RUBINOV2011"), ("due", "from bct/due.py:due"), ("enumerate", "builtin"), ("float", "builtin"),
-   ("get_rng", "def bct/utils/miscellaneous_utilities.py:get_rng"), ("int", "builtin"), ("len", "builtin"), ("np", "module numpy"),
-   ("randmio_und_signed", "def bct/algorithms/reference.py:randmio_und_signed")]
+   ("get_rng", "def bct/utils/miscellaneous_utilities.py:get_rng"), ("int", "builtin"), ("len", "builtin"), ("max", "builtin"), ("min", "builtin"),
+   ("np", "module numpy"), ("randmio_und_signed", "def bct/algorithms/reference.py:randmio_und_signed")]
 
 def refOriginsDir : List (String × String) :=
   [("BibTeX", "from bct/due.py:BibTeX"), ("RUBINOV2011", "from bct/citations.py:RUBINOV2011"), ("due", "from bct/due.py:due"),
    ("enumerate", "builtin"), ("float", "builtin"), ("get_rng", "def bct/utils/miscellaneous_utilities.py:get_rng"), ("int", "builtin"),
-   ("len", "builtin"), ("np", "module numpy"), ("randmio_dir_signed", "def bct/algorithms/reference.py:randmio_dir_signed")]
+   ("len", "builtin"), ("max", "builtin"), ("min", "builtin"), ("np", "module numpy"), ("randmio_dir_signed", "def bct/algorithms/reference.py:randmio_dir_signed")]
 
 def refUnd : NullIR :=
   { recognised := true, name := "null_model_und_sign", origins := refOriginsUnd,
@@ -415,7 +421,8 @@ def refUnd : NullIR :=
     iv := "i", jv := "j", ijA := "A_rcur", ijTriu := true, lij := "Lij", lijA := "A_rcur", lijTriu := true,
     p := "P", po1 := "S", po2 := "S",
     fq := "wei_freq", fqLit := 0, oind0 := "Oind", as0P := "P", as0L := "Lij", w0a := "W0", w0aL := "Lij", w0aO := "Oind", w0aS := "s", w0aW := "Wv",
-    wsize := "wsize", wsOf := "Wv", period := "wei_period", perOne := 1, perOf := "wei_freq", perTy := "int",
+    wsize := "wsize", wsOf := "Wv", period := "wei_period", perTy := "int", perMin := "min", perOne := 1, perOf := "wei_freq", perMax := "max",
+    perMaxA := "wsize", perMaxB := 1,
     lq := "lq", lqA := "wsize", lqB := 0, lqC := "wei_period", lqTy := "int", m := "m", mIn := "lq",
     oind := "Oind", asP := "P", asL := "Lij", rr := "R", rRng := "rng", rN := "m", rM := "m", rP := "wei_period",
     qv := "q", r1 := "r", enumOf := "R",
